@@ -384,6 +384,10 @@ theorem partial_delete_aux (s : Store) :
     | nil => left; simp [delete, PT.delete]
     | empty => left; simp [delete, PT.delete]
     | value h vv vw d hc =>
+      have hkn : key = [] := by
+        simp only [Uniform] at hu
+        exact List.eq_nil_of_length_eq_zero (hk.trans hu)
+      subst hkn
       right
       refine ⟨rfl, rfl, by simp [delete], trivial, fun _ => trivial, fun q _ => by simp [delete, Clear],
         .none, by simp [PT.delete], Rep.nil, ?_⟩
